@@ -74,6 +74,29 @@ def simulate_scripts(kinds, num, depth, sseed):
     return scripts, r
 
 
+def bursts(tier, rng):
+    """The acknowledgements of concurrent requests arrive back to back (no caller runs in between); each
+    Subscribe must still get the codes of its own SUBACK (different vectors / different counts per caller)."""
+    out = []
+    i = 0
+    for k in (2, 3, 4):
+        for rep in range(12 if tier == "quick" else 120):
+            order = list(range(1, k + 1))
+            rng.shuffle(order)
+            kinds = ["sub"] * k if rep % 3 else [rng.choice(KINDS) for _ in range(k)]
+            calls = [{"kind": kd, "n": 1 + (j + rep) % 3 if kd in ("sub", "unsub") else 1} for j, kd in enumerate(kinds)]
+            sc = []
+            for c in order:
+                sc.append({"c": c, "k": FIRST[kinds[c - 1]], "nb": True})
+            for c in order:
+                if kinds[c - 1] == "pub2":
+                    sc.append({"c": c, "k": "PUBCOMP", "nb": True})
+            sc[-1] = dict(sc[-1], nb=False)
+            out.append({"id": "u%d" % i, "calls": calls, "script": sc})
+            i += 1
+    return out
+
+
 def scenarios(tier, rng):
     out = []
     sims = 0
@@ -86,6 +109,8 @@ def scenarios(tier, rng):
         sims += len(scripts)
         for si, sc in enumerate(scripts):
             calls = [{"kind": k, "n": 1 + (ci + j) % 3 if k in ("sub", "unsub") else 1} for j, k in enumerate(kinds)]
+            if si % 2 and sc:
+                sc = [dict(st, nb=True) for st in sc[:-1]] + [sc[-1]]
             out.append({"id": "s%d-%d" % (ci, si), "calls": calls, "script": sc})
     # deterministic core: every kind alone / pairs, own acks in every order, with foreign acks in between
     i = 0
@@ -118,6 +143,9 @@ def scenarios(tier, rng):
                     sc0["script2"] = late + [{"c": na + nf, "k": FIRST[kind]}] + ([{"c": na + nf, "k": "PUBCOMP"}] if kind == "pub2" else [])
                 out.append(sc0)
                 i += 1
+    for b in bursts(tier, rng):
+        out.append(b)
+        i += 1
     # all SUBACK return-code vectors for 1..3 filters, and wrong counts
     for n in (1, 2, 3):
         for ln in range(0, n + 2):
